@@ -285,6 +285,8 @@ impl Prop for C13 {
             "esr_bit_7",
             "next_on_empty_queue",
             "extended_text_item_read_back",
+            "response_buffer_exhausted_at_terminator",
+            "response_buffer_exhausted_in_queue_query",
         ];
         v.into_iter().map(String::from).collect()
     }
@@ -461,12 +463,24 @@ impl Prop for C13 {
             if msg.units.is_empty() {
                 continue;
             }
-            let s = SendStep {
+            let mut s = SendStep {
                 ctl,
                 fmt: FmtCfg::Vec,
                 msg,
                 corrupt,
             };
+            // F5: a bounded response buffer whose capacity is near the response length (so that
+            // exhaustion can strike at the terminator or inside the last unit)
+            if s.corrupt.is_empty() && g.rng.chance(1, 6) {
+                let p = predict(&root, &shadow, &s, Reading::Condition);
+                if let Some(o) = &p.out {
+                    if !o.is_empty() && o.len() < 190 {
+                        let len = o.len() as i64;
+                        let cap = (len + *g.rng.pick(&[-1i64, -1, -2, 0, 1, -len / 2, -len])).max(0) as usize;
+                        s.fmt = FmtCfg::Array { cap };
+                    }
+                }
+            }
             advance_shadow(&mut shadow, &root, &s);
             t.steps.push(Step::Send(s));
         }
@@ -557,6 +571,21 @@ fn check_send(world: &mut World, before: &ModelState, i: usize, s: &SendStep, o:
         if std::env::var("VERIF_DEBUG").is_ok() {
             eprintln!("DEBUG inconsistent: {} -> {:?}, predicted {:?} (fail unit {:?})", describe_msg(s), o.result, pred.result, pred.fail_unit);
         }
+        if let Some(cmds) = pure_contrib(world, s) {
+            if cmds.iter().all(|c| matches!(c, Contrib::SystErrNext | Contrib::SystErrAll | Contrib::SystErrCount | Contrib::Esr | Contrib::Opc)) {
+                let code = match &o.result {
+                    Ok(()) => "ok".to_string(),
+                    Err(e) => format!("{}", e.code).replace('-', "m"),
+                };
+                out.push(Finding::new(
+                    "C13.query_result",
+                    format!("queue_or_esr_message_returned_{}", code),
+                    i,
+                    format!("{} [{:?}] returned {:?}, expected {:?}", describe_msg(s), s.fmt, o.result, pred.result.as_ref().map_err(|e| e.describe())),
+                ));
+                return;
+            }
+        }
         stats.bump("skipped_result_not_as_predicted");
         return;
     }
@@ -574,6 +603,14 @@ fn check_send(world: &mut World, before: &ModelState, i: usize, s: &SendStep, o:
         }
     }
     if let Err(e) = &o.result {
+        if e.code == -225 && matches!(s.fmt, FmtCfg::Array { .. }) {
+            stats.fault("F5_capacity");
+            if pred.fail_unit.is_none() {
+                stats.probe("response_buffer_exhausted_at_terminator");
+            } else if has_query {
+                stats.probe("response_buffer_exhausted_in_queue_query");
+            }
+        }
         match e.code {
             -113 => stats.fault("F4_undefined_header"),
             -108 | -109 => stats.fault("F2_arity"),
